@@ -755,4 +755,172 @@ theorem renderRel_ne (first : String) (rest : List String) (hf : first ≠ "")
   simp only [List.cons.injEq] at this
   exact hf this.1.symm
 
+/-! ### round trips -/
+
+theorem absSpelling_spells {reg : Registry} {start : Loc} {ctx t : Nat} {parts : List String} {p : Path}
+    (h : AbsSpelling reg start ctx t parts p) : Spells parts p := by
+  cases h with
+  | own s rest q _ hs => exact Spells.cons (SpellsStep.bare s) hs
+  | pfx pf s rest q hp _ hs => exact Spells.cons (SpellsStep.pfx pf s hp) hs
+
+theorem prefixTree_of_denotes {reg : Registry} {ctx t : Nat} {pfx : String} (h : Denotes reg ctx pfx t) :
+    prefixTree reg ctx pfx = some t := by
+  obtain ⟨cm, m, o, h1, h2, h3, h4⟩ := h
+  simp [prefixTree, h1, h2, h3, h4]
+
+/-- The name of the first step of an existing path has no `:`. -/
+theorem first_noColon {e x : Entry} {s : Step} {q : Path} (hwf : wfKeys e = true)
+    (hx : e.getAt (s :: q) = some x) : ':' ∉ (stepName s).toList := by
+  have wf := wfKeys_node hwf
+  cases s with
+  | child k =>
+    simp only [Entry.getAt] at hx
+    cases hc : e.child? k with
+    | none => simp [hc] at hx
+    | some c =>
+      obtain ⟨hmem, hname⟩ := child?_mem hc
+      have hg := goodName_spec (wf.good c hmem)
+      rw [hname] at hg
+      simpa [stepName] using hg.2.2.2.2
+  | input => decide
+  | output => decide
+
+theorem abs_roundtrip (reg : Registry) (f : Forest) (start : Loc) (ctx t : Nat) (parts : List String)
+    (p : Path) (root x : Entry) (hwf : WFForest f) (hsp : AbsSpelling reg start ctx t parts p)
+    (ht : f.tree? t = some root) (hx : root.getAt p = some x) :
+    find reg f start ctx (renderAbs parts) = (some (t, p), f) := by
+  have hroot : wfKeys root = true := hwf.2 _ (tree?_mem ht)
+  have hs := absSpelling_spells hsp
+  have hslash := spells_noSlash hs hroot hx
+  have hne : parts ≠ [] := by cases hsp <;> simp
+  have hsel : (if (splitPrefix (parts.headD "")).1 == "" then some start.1
+      else prefixTree reg ctx (splitPrefix (parts.headD "")).1) = some t := by
+    cases hsp with
+    | own s rest q ht' _ =>
+      have := first_noColon hroot hx
+      simp [splitPrefix_bare _ this, ht']
+    | pfx pf s rest q hp hd _ =>
+      have := first_noColon hroot hx
+      simp [splitPrefix_pfx _ _ hp.2.1 this, hp.1, prefixTree_of_denotes hd]
+  rw [find_abs_eq reg f start ctx _ parts t root (renderAbs_ne parts hne hslash)
+    (splitOn_renderAbs parts hslash) hsel ht]
+  have hw := walk_down hs [] [] root x (show root.getAt [] = some root from rfl) hroot hx
+  simp only [List.append_nil, List.nil_append, walkParts] at hw
+  rw [hw]
+  simp [setTree_same hwf.1 ht]
+
+/-! ### relative -/
+
+theorem commonLen_spec (a b : Path) :
+    a.take (commonLen a b) = b.take (commonLen a b) ∧ commonLen a b ≤ a.length := by
+  induction a generalizing b with
+  | nil => simp [commonLen]
+  | cons x a ih =>
+    cases b with
+    | nil => simp [commonLen]
+    | cons y b =>
+      simp only [commonLen]
+      by_cases hxy : x = y
+      · subst hxy
+        simp only [if_true, List.take_succ_cons, List.cons.injEq, true_and, List.length_cons]
+        exact ⟨(ih b).1, by have := (ih b).2; omega⟩
+      · simp [hxy]
+
+/-- Any number of `..` steps up to an ancestor, then any spelling of the steps down. -/
+theorem rel_roundtrip_gen (reg : Registry) (f : Forest) (ctx t : Nat) (c ra rb : Path) (dparts : List String)
+    (root xa xb : Entry) (hwf : WFForest f) (ht : f.tree? t = some root)
+    (ha : root.getAt (c ++ ra) = some xa) (hb : root.getAt (c ++ rb) = some xb)
+    (hd : Spells dparts rb) (hne : List.replicate ra.length ".." ++ dparts ≠ []) :
+    find reg f (t, c ++ ra) ctx (renderRel (List.replicate ra.length ".." ++ dparts)) = (some (t, c ++ rb), f) := by
+  have hroot : wfKeys root = true := hwf.2 _ (tree?_mem ht)
+  obtain ⟨ec, hec, hecb⟩ := getAt_prefix hb
+  have hwc : wfKeys ec = true := wfKeys_getAt c hroot hec
+  have hslash : ∀ s ∈ List.replicate ra.length ".." ++ dparts, '/' ∉ s.toList := by
+    intro s hs
+    rcases List.mem_append.1 hs with h | h
+    · rw [List.eq_of_mem_replicate h]; decide
+    · exact spells_noSlash hd hwc hecb s h
+  -- the first part is not empty
+  obtain ⟨first, rest, hfr⟩ : ∃ first rest, List.replicate ra.length ".." ++ dparts = first :: rest := by
+    cases h : List.replicate ra.length ".." ++ dparts with
+    | nil => exact absurd h hne
+    | cons a l => exact ⟨a, l, rfl⟩
+  have hfirst : first ≠ "" := by
+    cases hra : ra with
+    | nil =>
+      rw [hra] at hfr
+      simp only [List.length_nil, List.replicate_zero, List.nil_append] at hfr
+      subst hfr
+      cases hd with
+      | @cons part s parts q hstep _ =>
+        have hn : stepName s ≠ "" := by
+          have wf := wfKeys_node hwc
+          cases s with
+          | child k =>
+            simp only [Entry.getAt] at hecb
+            cases hc : ec.child? k with
+            | none => simp [hc] at hecb
+            | some cc =>
+              obtain ⟨hmem, hname⟩ := child?_mem hc
+              have hg := goodName_spec (wf.good cc hmem)
+              rw [hname] at hg
+              simpa [stepName] using hg.1
+          | input => decide
+          | output => decide
+        cases hstep with
+        | bare => exact hn
+        | pfx pf _ hp => exact pfx_ne _ _ _ (by decide)
+    | cons s ra' =>
+      rw [hra] at hfr
+      simp only [List.length_cons, List.replicate_succ, List.cons_append, List.cons.injEq] at hfr
+      rw [← hfr.1]; decide
+  rw [hfr] at hslash
+  have hname := renderRel_ne first rest hfirst hslash
+  have hsplit := splitOn_render (first :: rest) (by simp) hslash
+  rw [hfr, find_rel_eq reg f (t, c ++ ra) ctx _ first rest root hname hsplit hfirst ht]
+  rw [← hfr]
+  simp only
+  rw [walk_up dparts c ra xa ha]
+  have hw := walk_down hd [] c ec xb hec hwc hecb
+  simp only [List.append_nil, walkParts] at hw
+  rw [hw]
+  simp [setTree_same hwf.1 ht]
+
+theorem rel_roundtrip (reg : Registry) (f : Forest) (ctx t : Nat) (a b : Path) (root xa xb : Entry)
+    (hwf : WFForest f) (ht : f.tree? t = some root)
+    (ha : root.getAt a = some xa) (hb : root.getAt b = some xb) :
+    find reg f (t, a) ctx (relPath a b) = (some (t, b), f) := by
+  obtain ⟨htake, hle⟩ := commonLen_spec a b
+  unfold relPath relParts
+  simp only
+  generalize hn : commonLen a b = n at htake hle ⊢
+  have hA : a = a.take n ++ a.drop n := (List.take_append_drop _ _).symm
+  have hB : b = a.take n ++ b.drop n := by rw [htake]; exact (List.take_append_drop _ _).symm
+  have hlen : (a.drop n).length = a.length - n := List.length_drop
+  by_cases hemp : (List.replicate (a.length - n) ".." ++ bareParts (b.drop n)).isEmpty = true
+  · -- a = b
+    simp only [hemp, if_true]
+    have h1 : a.length - n = 0 := by
+      simp only [List.isEmpty_iff, List.append_eq_nil_iff, List.replicate_eq_nil_iff] at hemp
+      exact hemp.1
+    have h2 : b.drop n = [] := by
+      simp only [List.isEmpty_iff, List.append_eq_nil_iff] at hemp
+      simpa [bareParts] using hemp.2
+    have hda : a.drop n = [] := List.eq_nil_of_length_eq_zero (by omega)
+    have hab : a = b := by rw [hA, hB, hda, h2]
+    subst hab
+    have hname : renderRel ["."] ≠ "" := renderRel_ne "." [] (by decide) (by intro s hs; simp at hs; subst hs; decide)
+    have hsplit : (renderRel ["."]).splitOn "/" = ["."] :=
+      splitOn_render ["."] (by simp) (by intro s hs; simp at hs; subst hs; decide)
+    rw [find_rel_eq reg f (t, a) ctx _ "." [] root hname hsplit (by decide) ht]
+    simp only
+    rw [walk_dot [] ha]
+    simp [walkParts, setTree_same hwf.1 ht]
+  · simp only [hemp, Bool.false_eq_true, if_false]
+    have := rel_roundtrip_gen reg f ctx t (a.take n) (a.drop n) (b.drop n)
+      (bareParts (b.drop n)) root xa xb hwf ht (by rw [← hA]; exact ha) (by rw [← hB]; exact hb)
+      (spells_bare _) (by rw [hlen]; intro h; simp [h] at hemp)
+    rw [hlen, ← hA, ← hB] at this
+    exact this
+
 end Goyang.Lemmas.Find
